@@ -318,3 +318,11 @@ ROUND9 = {
     "C19": "Input._get_word_completions returns the wordlist's completions of the prefix as typed, nothing edited or remembered (C19.R8).",
     "C20": "Only Manager.use_hints hands hints to the Connector (C20.R9).",
 }
+
+
+# rules added after the tenth seed round (turn shift; "equivalent" API substitution)
+ROUND10 = {
+    "C10": "to_be4 / from_be4 use one unsigned 4-byte big-endian format - the seqnum / ack codec of the exactly-once argument (C10.R13).",
+    "C11": "Peer-hint handlers never hash an unchecked peer value into a set (C11.R12, the instance of C20.R10): an unhashable hint type would lose the whole hints message and with it the route to re-converge on.",
+    "C20": "Membership tests of peer values in the hint handlers are against lists / tuples, or follow an isinstance(.., str) check - never a set literal / frozenset constant, which hashes the value (C20.R10).",
+}
